@@ -12,6 +12,7 @@ import builtins
 from .. import AnalysisError
 from ..pm import dotted, src
 from ..q import FA, call_name, walk_no_nested
+from ..pat import match_stmt
 from ..resolve import resolver
 from ..rules import api, arity, attr, sig, undef
 
@@ -19,13 +20,44 @@ TECHNIQUE = "whole-package attribute-existence (R-ATTR), call-signature conforma
 
 # Reviewed possibly-unbound reads: (function, name) -> why the unbound path is infeasible.
 UNDEF_REVIEWED = {
-    ("nessai.evidence:_NSIntegralState.get_logx_live_points", "logt"): "expectation is validated against {'t','logt'} in __init__ (checked below as C20.4b)",
-    ("nessai.model:Model._single_new_point", "p"): "`logP = -np.inf` immediately precedes `while logP == -np.inf`: first iteration always runs",
-    ("nessai.model:Model.verify_model", "x"): "`logP = -np.inf` immediately precedes `while (logP == -np.inf) or ...`: first iteration always runs; else-branch binds x in the try",
-    ("nessai.plot:plot_1d_comparison", "handles"): "`axs` comes from plt.subplots with at least one axis",
-    ("nessai.plot:plot_indices", "batch"): "np.array_split returns n_breakdown >= 1 batches",
-    ("nessai.flowmodel.base:FlowModel.train", "epoch"): "range(1, max_epochs + 1) is non-empty for the validated max_epochs >= 1",
+    # function -> (pattern of the statement that binds the variable ($$V), why the unbound path is infeasible)
+    "nessai.evidence:_NSIntegralState.get_logx_live_points": ("$$V = -1 / $_n", "expectation is validated against {'t','logt'} in __init__ (checked below as C20.4b)"),
+    "nessai.model:Model._single_new_point": ("$$V = parameters_to_live_point($_a, self.names)", "`logP = -np.inf` immediately precedes `while logP == -np.inf`: first iteration always runs"),
+    "nessai.model:Model.verify_model": ("$$V = numpy_array_to_live_points($_a, self.names)", "`logP = -np.inf` immediately precedes `while (logP == -np.inf) or ...`: first iteration always runs; else-branch binds x in the try"),
+    "nessai.plot:plot_1d_comparison": ("$$V, $$_u = $$ax.get_legend_handles_labels()", "`axs` comes from plt.subplots with at least one axis"),
+    "nessai.plot:plot_indices": ("for $$V, $$_c in zip($$_a, $$_b):\n    $_s1\n    $_s2\n    $_s3", "np.array_split returns n_breakdown >= 1 batches"),
+    "nessai.flowmodel.base:FlowModel.train": ("for $$V in range(1, max_epochs + 1):\n    $_body", "range(1, max_epochs + 1) is non-empty for the validated max_epochs >= 1"),
 }
+
+
+def undef_reviewed(f, name):
+    """Reason if (function, variable) is a reviewed possibly-unbound read, else None.  The variable is
+    identified by the statement that binds it, not by its name."""
+    ent = UNDEF_REVIEWED.get(f.qual)
+    if ent is None:
+        return None
+    pat, why = ent
+    for n in ast.walk(f.node):
+        if isinstance(n, (ast.Assign, ast.For)):
+            names = {x.id for t in (n.targets if isinstance(n, ast.Assign) else [n.target]) for x in ast.walk(t) if isinstance(x, ast.Name)}
+            if name not in names:
+                continue
+            if isinstance(n, ast.For):
+                tg = n.target
+                first = tg.elts[0] if isinstance(tg, ast.Tuple) else tg
+                it = pat.split("\n")[0]
+                if pat.startswith("for ") and isinstance(first, ast.Name) and first.id == name:
+                    from ..pat import _match, _parse
+                    from ..canon import canon_node
+                    b = {}
+                    hp = _parse(it + "\n    pass", "stmt")
+                    if _match(hp.target, canon_node(n.target), b) and _match(hp.iter, canon_node(n.iter), b) and isinstance(b.get("V"), ast.Name) and b["V"].id == name:
+                        return why
+                continue
+            b = match_stmt(pat, n) if not pat.startswith("for ") else None
+            if b is not None and isinstance(b.get("V"), ast.Name) and b["V"].id == name:
+                return why
+    return None
 
 
 def run(ctx):
@@ -45,7 +77,7 @@ def run(ctx):
     # C20.2 R-SIG -------------------------------------------------------
     def ob_sig(f, call, g, ok, detail):
         kws = ",".join(sorted(k.arg for k in call.keywords if k.arg))
-        ctx.ob("R-SIG", "C20.2", f, f"call {src(call.func)}({kws}) -> {g.qual.split(':')[-1]}", ok, detail, node=call)
+        ctx.ob("R-SIG", "C20.2", f, f"call {_receiver_free(f, call.func)}({kws}) -> {g.qual.split(':')[-1]}", ok, detail, node=call)
 
     n_sig = sig.scan(prog, fns, ob_sig)
     ctx.extra["calls_resolved"] = res.resolved_calls
@@ -69,12 +101,12 @@ def run(ctx):
     # C20.4 R-UNDEF -----------------------------------------------------
     reported = set()
     for f, name, x in undef.scan(prog, fns):
-        key = (f.qual, name)
-        reported.add(key)
-        if key in UNDEF_REVIEWED:
-            ctx.ob("R-UNDEF", "C20.4", f, f"local `{name}` bound on every feasible path (reviewed)", True, UNDEF_REVIEWED[key], node=x)
+        why = undef_reviewed(f, name)
+        if why is not None:
+            reported.add(f.qual)
+            ctx.ob("R-UNDEF", "C20.4", f, "possibly-unbound local is a reviewed case (infeasible path)", True, f"`{name}`: {why}", node=x)
         else:
-            ctx.ob("R-UNDEF", "C20.4", f, f"local `{name}` bound on every path to its reads", False,
+            ctx.ob("R-UNDEF", "C20.4", f, "every local is bound on every path to its reads", False,
                    f"`{name}` is read at {f.loc(x)} on a path where no assignment to it has executed", node=x)
     for key in UNDEF_REVIEWED:
         if key not in reported:
@@ -107,6 +139,18 @@ def run(ctx):
 
     C20_reg.run(ctx)
     ctx.assumptions.append("user-supplied subclasses and entry-point proposals are outside the analysed program; termination of population loops is not decided")
+
+
+def _receiver_free(f, func):
+    """Source of a callee expression with a local receiver variable replaced by <local> (keys must not depend on local names)."""
+    text = src(func)
+    root = func
+    while isinstance(root, (ast.Attribute, ast.Subscript, ast.Call)):
+        root = root.value if not isinstance(root, ast.Call) else root.func
+    if isinstance(root, ast.Name) and root.id not in ("self", "cls", "super") and root.id not in f.module.imports and root.id not in f.module.classes and root.id not in f.module.functions and root.id not in f.params():
+        if text.startswith(root.id + "."):
+            return "<local>" + text[len(root.id):]
+    return text
 
 
 def undefined_names(prog, f):
@@ -170,7 +214,7 @@ MUTANTS = [
     {"id": "tuple-arity", "file": _INS, "old": "        new_samples, log_q = self.draw_n_samples(n)\n        new_samples[\"it\"] = self.iteration\n", "new": "        new_samples, log_q, _ = self.draw_n_samples(n)\n        new_samples[\"it\"] = self.iteration\n", "expect": "draw_n_samples"},
     {"id": "too-many-positionals", "file": _NS, "old": "index = self.insert_live_point(proposed)", "new": "index = self.insert_live_point(proposed, self.iteration)", "expect": "insert_live_point"},
     {"id": "missing-numpy-api", "file": _INS, "old": "idx = np.argsort(samples, order=\"logL\")", "new": "idx = np.argsort_stable(samples, order=\"logL\")", "expect": "numpy.argsort_stable"},
-    {"id": "unbound-local", "file": _NS, "old": "        if flow_config is None:\n            flow_config = {}\n        obj._flow_proposal.resume(model, flow_config, weights_path)", "new": "        if flow_config is None:\n            cfg = {}\n        obj._flow_proposal.resume(model, cfg, weights_path)", "expect": "local `cfg`"},
+    {"id": "unbound-local", "file": _NS, "old": "        if flow_config is None:\n            flow_config = {}\n        obj._flow_proposal.resume(model, flow_config, weights_path)", "new": "        if flow_config is None:\n            cfg = {}\n        obj._flow_proposal.resume(model, cfg, weights_path)", "expect": "every local is bound"},
     {"id": "undefined-name", "file": _INS, "old": "        self.log_likelihood_threshold = threshold\n        self.training_samples.update_log_likelihood_threshold(", "new": "        self.log_likelihood_threshold = thresh\n        self.training_samples.update_log_likelihood_threshold(", "expect": "name `thresh`"},
     {"id": "registry-stale-latent-prior", "file": _FP, "old": '        if self.latent_prior in ["uniform_nsphere", "uniform_nball"]:\n            return get_uniform_distribution(', "new": '        if self.latent_prior in ["uniform_sphere", "uniform_nball"]:\n            return get_uniform_distribution(', "expect": "latent prior names handled here"},
     {"id": "registry-criterion-not-computed", "file": _INS, "old": "        self.ratio_ns = self.state.compute_evidence_ratio(ns_only=True)\n", "new": "        ratio_ns = self.state.compute_evidence_ratio(ns_only=True)\n", "expect": "stopping criterion `ratio_ns`"},
